@@ -21,6 +21,7 @@ CONSTANTS
   WPriv = 100
   StateChangeNotifies = TRUE
   SlotsChangeNotifies = FALSE
+  ManagedEveryCycle = TRUE
   TaskEndNotifies = TRUE
   RequeueTail = FALSE
   TrackPerUser = TRUE
